@@ -166,11 +166,11 @@ theorem mod_type_partial (R : Rounding) (v : Ver) (hv : v ≠ .v10) (a b r : Num
 
 /-- F06t witnesses (kernel-checked, any rounding): `5 mod xs:double('INF')` is the xs:integer 5,
 `xs:float('1') div 0` is an xs:double. -/
-theorem type_fails_mod_inf (R : Rounding) :
-    trigF06t R .v20 .mod (.int 5) (.dbl (.inf false)) = true ∧
-    opMod R .v20 (.int 5) (.dbl (.inf false)) = .ok (.int 5) ∧
+theorem type_fails_mod_inf :
+    trigF06t ieee .v20 .mod (.int 5) (.dbl (.inf false)) = true ∧
+    opMod ieee .v20 (.int 5) (.dbl (.inf false)) = .ok (.int 5) ∧
     resultTy .mod (numTy (.int 5)) (numTy (.dbl (.inf false))) = .double := by
-  refine ⟨rfl, rfl, rfl⟩
+  refine ⟨by decide +kernel, by decide +kernel, by decide +kernel⟩
 
 theorem type_fails_float_div_zero (R : Rounding) :
     trigF06t R .v20 .div (.flt (.fin 1)) (.int 0) = true ∧
